@@ -131,6 +131,7 @@ fn main() {
                     "x01" => x01::replay(c),
                     "x03" => x03::replay(c),
                     "x04" => x04::replay(c),
+                    "x04i" => x04::replay_inline(c),
                     "x05" => x05::replay(c),
                     "c16" => c16::replay(c),
                     "c17" => c17::replay(c),
